@@ -41,6 +41,8 @@ func runC10(c *eng.Ctx, tier string) {
 	include(c, "R-C10-9", c13Validity)
 	// ... and the cache consulted is the configured one, with either client kind
 	include(c, "R-C10-9", c13CacheField)
+	// ... and a cache that did not decode is discarded as a whole (C13's rule)
+	includeOnly(c, "R-C10-9", func(sc *eng.Ctx) { runC13(sc, "quick") }, "R-C13-5")
 	// struct-tagged secrets are declared under the very names they are later applied under
 	includeOnly(c, "R-C10-10", func(sc *eng.Ctx) { runC20(sc, "quick") }, "R-C20-2")
 	// R-C10-7
@@ -78,12 +80,35 @@ func runC10(c *eng.Ctx, tier string) {
 
 func c10Validation(c *eng.Ctx, ns *ssa.Function) {
 	p := c.P
-	var storeAlloc *ssa.Alloc
+	// the point where the Store comes into being: its allocation in NewStore,
+	// or the call of a constructor helper that allocates and returns it
+	var storeAlloc ssa.Instruction
 	eng.Instrs(ns, func(in ssa.Instruction) {
 		if al, ok := in.(*ssa.Alloc); ok && al.Heap && eng.IsNamed(al.Type(), setecPkg, "Store") {
 			storeAlloc = al
 		}
 	})
+	if storeAlloc == nil {
+		eng.Instrs(ns, func(in ssa.Instruction) {
+			call, ok := in.(*ssa.Call)
+			if !ok || storeAlloc != nil {
+				return
+			}
+			h := eng.Callee(&call.Call)
+			if !eng.IsHelper(ns, h) || h.Signature.Results().Len() != 1 || !eng.IsNamed(h.Signature.Results().At(0).Type(), setecPkg, "Store") {
+				return
+			}
+			fresh := len(eng.Returns(h)) > 0
+			for _, r := range eng.Returns(h) {
+				if al, isAl := eng.Origin(eng.RetVals(r)[0]).(*ssa.Alloc); !isAl || !al.Heap {
+					fresh = false
+				}
+			}
+			if fresh {
+				storeAlloc = call
+			}
+		})
+	}
 	if storeAlloc == nil {
 		c.Undecided("R-C10-1", ns, ns.Pos(), "construction of the Store", "no allocation found")
 		return
@@ -114,6 +139,13 @@ func c10Validation(c *eng.Ctx, ns *ssa.Function) {
 			return true
 		}
 		cond := eng.CondOf(ifi.Cond, i == 0)
+		// the name collection itself may refuse "nothing declared and no
+		// lookups": its nil-error edge is then closed under this assumption
+		if v, isNil, isE := cond.ErrCheck(); isE && isNil && namesCall != nil {
+			if call, _ := eng.TupleCall(v); call == namesCall && namesRefusesNothing(eng.Callee(&namesCall.Call)) {
+				return false
+			}
+		}
 		if op, x, y, isCmp := cond.Cmp(); isCmp {
 			if k, isK := eng.ConstInt(y); isK && k == 0 {
 				if args, isLen := eng.BuiltinCall(instrOf(eng.Origin(x)), "len"); isLen {
@@ -131,7 +163,7 @@ func c10Validation(c *eng.Ctx, ns *ssa.Function) {
 		}
 		return true
 	}
-	hit, path := eng.Search(ns, nil, assume, nil, func(x ssa.Instruction) bool { return x == ssa.Instruction(storeAlloc) })
+	hit, path := eng.Search(ns, nil, assume, nil, func(x ssa.Instruction) bool { return x == storeAlloc })
 	c.Check(hit == nil, "R-C10-1", ns, storeAlloc.Pos(), "construction of the Store [something to serve]", "unreachable when no secret is declared and lookups are disabled (that configuration is an error)", func() string {
 		if hit == nil {
 			return ""
@@ -470,6 +502,16 @@ func c10InitIn(c *eng.Ctx, init *ssa.Function, inner bool) {
 				// after a failure the count of missing names is not zero
 				if op, x, y, isCmp := cd.Cmp(); isCmp && op == token.EQL {
 					if k, isK := eng.ConstInt(y); isK && k == 0 {
+						// (the count may be the length of a list of failed names
+						// that grows by append)
+						if args, isLen := eng.BuiltinCall(instrOf(eng.Origin(x)), "len"); isLen {
+							leaves, _ := eng.PhiLeaves(eng.Origin(args[0]))
+							for _, lf := range leaves {
+								if _, isApp := eng.BuiltinCall(instrOf(eng.Origin(lf.Val)), "append"); isApp {
+									return false
+								}
+							}
+						}
 						if ph, isPhi := x.(*ssa.Phi); isPhi && isIntType(ph.Type()) {
 							_, phis := eng.PhiLeaves(ph)
 							for q := range phis {
@@ -584,6 +626,12 @@ func c10InitIn(c *eng.Ctx, init *ssa.Function, inner bool) {
 		}
 		if loop == nil {
 			c.Undecided("R-C10-5", init, init.Pos(), "loop over the active set", "not found")
+			continue
+		}
+		if !loop.Body.Dominates(fetch.Block()) && !inner {
+			// the names still missing are kept in a work list that each round
+			// iterates over and rebuilds from its failures
+			c10Worklist(c, init, fetch, ferr)
 			continue
 		}
 		missing := false
@@ -705,6 +753,16 @@ func c10InitIn(c *eng.Ctx, init *ssa.Function, inner bool) {
 			}
 			okk := false
 			detail := "not a doubling of the variable"
+			// the step may be computed by a pure helper of the variable:
+			// every return of it is the argument itself or its doubling under
+			// argument < C
+			if hc, _ := eng.TupleCall(lf.Val); hc != nil {
+				if h := eng.Callee(&hc.Call); eng.IsHelper(init, h) && len(hc.Call.Args) == 1 && len(h.Params) == 1 {
+					if ph, isPhi := eng.Origin(hc.Call.Args[0]).(*ssa.Phi); isPhi && phis[ph] {
+						okk, detail = backoffStepHelper(h)
+					}
+				}
+			}
 			if b, isB := lf.Val.(*ssa.BinOp); isB {
 				dbl := false
 				_, xPhi := b.X.(*ssa.Phi)
@@ -876,4 +934,349 @@ func c10FieldBackoff(c *eng.Ctx, init *ssa.Function, w *ssa.Call, fld eng.FieldR
 	if n == 0 {
 		c.Bad("R-C10-4", init, w.Pos(), "wait duration field "+fld.Name, "initialised to a positive pause", "the field is never assigned: a zero pause is a busy retry")
 	}
+}
+
+// backoffStepHelper: h(d) computes the next pause from the current one: each
+// return is d itself, a constant in (0, 10s], or d+d / d*2 / 2*d on a path
+// where d < C holds with 2C <= 10s; h has no effects.
+func backoffStepHelper(h *ssa.Function) (bool, string) {
+	d := ssa.Value(h.Params[0])
+	pure := true
+	eng.Instrs(h, func(in ssa.Instruction) {
+		switch in.(type) {
+		case *ssa.Store, *ssa.MapUpdate, *ssa.Send, *ssa.Go, *ssa.Defer, *ssa.Call:
+			pure = false
+		}
+	})
+	if !pure {
+		return false, "the step helper " + eng.FName(h) + " is not a pure function of the pause"
+	}
+	for _, r := range eng.Returns(h) {
+		rv := eng.RetVals(r)
+		if len(rv) != 1 {
+			return false, "step helper with several results"
+		}
+		vals := []ssa.Value{rv[0]}
+		if leaves, phis := eng.PhiLeaves(eng.Origin(rv[0])); len(phis) > 0 {
+			vals = nil
+			for _, lf := range leaves {
+				vals = append(vals, lf.Val)
+			}
+		}
+		for _, v := range vals {
+			o := eng.Origin(v)
+			if o == d {
+				continue
+			}
+			if k, isK := eng.ConstInt(o); isK && time.Duration(k) > 0 && time.Duration(k) <= 10*time.Second {
+				continue
+			}
+			b, isB := o.(*ssa.BinOp)
+			dbl := false
+			if isB && b.Op == token.ADD && eng.Origin(b.X) == d && eng.Origin(b.Y) == d {
+				dbl = true
+			}
+			if isB && b.Op == token.MUL {
+				if k, isK := eng.ConstInt(b.Y); isK && k == 2 && eng.Origin(b.X) == d {
+					dbl = true
+				}
+				if k, isK := eng.ConstInt(b.X); isK && k == 2 && eng.Origin(b.Y) == d {
+					dbl = true
+				}
+			}
+			if !dbl {
+				return false, "step helper " + eng.FName(h) + " returns " + eng.ValStr(v) + ": neither the pause nor its doubling"
+			}
+			capped := false
+			for _, f := range eng.BlockFacts(b.Block()) {
+				op, x, y, isCmp := f.Cond().Cmp()
+				if !isCmp || op != token.LSS || eng.Origin(x) != d {
+					continue
+				}
+				if cap, isK := eng.ConstInt(y); isK && 2*time.Duration(cap) <= 10*time.Second {
+					capped = true
+				}
+			}
+			if !capped {
+				return false, "the doubling in " + eng.FName(h) + " is not edge-dominated by pause < C with 2C <= 10s"
+			}
+		}
+	}
+	return true, ""
+}
+
+// namesRefusesNothing: with an empty result list and AllowLookup false the
+// name-collecting function h has no return with a nil error (for each
+// nil-error return: assuming len(the list it returns) == 0 and !AllowLookup,
+// that return is unreachable).
+func namesRefusesNothing(h *ssa.Function) bool {
+	if h == nil || h.Blocks == nil {
+		return false
+	}
+	ei := errResultIndex(h)
+	if ei < 0 {
+		return false
+	}
+	n := 0
+	for _, r := range eng.Returns(h) {
+		rv := eng.RetVals(r)
+		if !eng.IsNilConst(eng.Origin(rv[ei])) {
+			continue
+		}
+		n++
+		list := rv[0]
+		assume := func(b *ssa.BasicBlock, i int) bool {
+			ifi, ok := b.Instrs[len(b.Instrs)-1].(*ssa.If)
+			if !ok {
+				return true
+			}
+			cond := eng.CondOf(ifi.Cond, i == 0)
+			if op, x, y, isCmp := cond.Cmp(); isCmp {
+				if k, isK := eng.ConstInt(y); isK && k == 0 {
+					if args, isLen := eng.BuiltinCall(instrOf(eng.Origin(x)), "len"); isLen && (args[0] == list || eng.Same(args[0], list)) {
+						return op == token.EQL || op == token.LEQ
+					}
+				}
+			}
+			if v, truth, isB := cond.Bool(); isB {
+				if fr, _, isF := eng.LoadedField(v); isF && fr.Is(setecPkg, "StoreConfig", "AllowLookup") {
+					return !truth
+				}
+			}
+			return true
+		}
+		if hit, _ := eng.Search(h, nil, assume, nil, func(x ssa.Instruction) bool { return x == ssa.Instruction(r) }); hit != nil {
+			return false
+		}
+	}
+	return n > 0
+}
+
+// c10Worklist: R-C10-5 when the names still missing are kept in a slice (a
+// work list) instead of being re-discovered by scanning the active set.
+// Provenance: every element the list ever receives is (a) the key of a scan
+// over the active set appended where its entry is nil, or (b) the element
+// being fetched, appended on the failure edge of its own fetch.  Then a name
+// is fetched only while it has no value; a success installs it under that
+// name and leaves it out of the next round; success is reported only after a
+// full pass that appended no failure.
+func c10Worklist(c *eng.Ctx, init *ssa.Function, fetch *ssa.Call, ferr ssa.Value) {
+	p := c.P
+	name := fetchName(fetch)
+	var rl *eng.RangeLoop
+	for _, l := range eng.RangeLoops(init) {
+		if name != nil && l.ElemOf(name) {
+			ll := l
+			rl = &ll
+		}
+	}
+	if rl == nil {
+		c.Undecided("R-C10-5", init, fetch.Pos(), eng.CallStr(&fetch.Call), "the fetched name is neither the key of a scan over the active set nor the element of a work list")
+		return
+	}
+	scanKey := func(x ssa.Value, at ssa.Instruction) bool {
+		for _, ml := range mapLoops(init) {
+			if n, isAct := activeMapOf(ml.Range.X); !isAct || n != "m" || eng.Origin(x) != ml.Key {
+				continue
+			}
+			for _, cond := range eng.FactsAt(at) {
+				if v, isNil, isN := cond.NilCheck(); isN && isNil && eng.Origin(v) == ml.Val {
+					return true
+				}
+			}
+		}
+		return false
+	}
+	failedElem := func(x ssa.Value, at ssa.Instruction) bool {
+		if !rl.ElemOf(x) {
+			return false
+		}
+		for _, cond := range eng.FactsAt(at) {
+			if v, isNil, isE := cond.ErrCheck(); isE && !isNil && eng.Same(v, ferr) {
+				return true
+			}
+		}
+		return false
+	}
+	seen := map[ssa.Value]bool{}
+	var failAppends []ssa.Instruction
+	why := ""
+	var judge func(v ssa.Value, depth int) bool
+	judge = func(v ssa.Value, depth int) bool {
+		o := eng.Origin(v)
+		if seen[o] {
+			return true
+		}
+		seen[o] = true
+		if depth > 8 {
+			return false
+		}
+		if eng.IsNilConst(o) {
+			return true
+		}
+		if ph, isPhi := o.(*ssa.Phi); isPhi {
+			for _, e := range ph.Edges {
+				if !judge(e, depth+1) {
+					return false
+				}
+			}
+			return true
+		}
+		in := instrOf(o)
+		args, isApp := eng.BuiltinCall(in, "append")
+		if !isApp || len(args) != 2 {
+			why = "the work list receives " + eng.ValStr(v)
+			return false
+		}
+		if !judge(args[0], depth+1) {
+			return false
+		}
+		pa := eng.Path{Blocks: []*ssa.BasicBlock{in.Block()}}
+		elems, known := pa.SliceElems(args[1])
+		if !known || len(elems) == 0 {
+			why = "elements appended at " + p.Pos(in.Pos()) + " are not known"
+			return false
+		}
+		for _, x := range elems {
+			switch {
+			case scanKey(x, in):
+			case failedElem(x, in):
+				failAppends = append(failAppends, in)
+			default:
+				why = "element " + eng.ValStr(x) + " appended at " + p.Pos(in.Pos()) + " is neither a name whose entry is nil nor the name whose fetch just failed"
+				return false
+			}
+		}
+		return true
+	}
+	okList := judge(rl.Slice, 0)
+	// from one round to the next the list is REPLACED by the failures of the
+	// round: where the loop over it is re-entered, the list is a loop-carried
+	// variable whose back-edge values contain recorded failures only
+	if okList {
+		reentered := false
+		if len(rl.Done.Instrs) > 0 {
+			if hit, _ := eng.SearchBlock(init, rl.Done, nil, nil, func(x ssa.Instruction) bool { return x.Block() == rl.Header }); hit != nil {
+				reentered = true
+			}
+		}
+		if reentered {
+			onlyFailures := func(v ssa.Value) bool {
+				ok := true
+				var walk func(v ssa.Value, depth int)
+				visited := map[ssa.Value]bool{}
+				walk = func(v ssa.Value, depth int) {
+					o := eng.Origin(v)
+					if visited[o] || depth > 8 {
+						return
+					}
+					visited[o] = true
+					if eng.IsNilConst(o) {
+						return
+					}
+					if ph, isPhi := o.(*ssa.Phi); isPhi {
+						for _, e := range ph.Edges {
+							walk(e, depth+1)
+						}
+						return
+					}
+					in := instrOf(o)
+					args, isApp := eng.BuiltinCall(in, "append")
+					if !isApp || !isFailAppendOf(failAppends, in) {
+						ok = false
+						return
+					}
+					walk(args[0], depth+1)
+				}
+				walk(v, 0)
+				return ok
+			}
+			ph, isPhi := eng.Origin(rl.Slice).(*ssa.Phi)
+			if !isPhi {
+				okList, why = false, "the work list is iterated again in the next round without having been replaced by that round's failures (names already obtained are fetched again)"
+			} else {
+				for i, e := range ph.Edges {
+					if ph.Block().Dominates(ph.Block().Preds[i]) && !onlyFailures(e) {
+						okList, why = false, "the list carried into the next round ("+eng.ValStr(e)+") is not made of that round's failures only"
+					}
+				}
+			}
+		}
+	}
+	c.Check(okList, "R-C10-5", init, fetch.Pos(), eng.CallStr(&fetch.Call)+" [only missing]", "a name is fetched only while it has no value: the work list holds names found with a nil entry and, from one round to the next, only those whose fetch failed", why)
+	// success installs a fresh entry under the same name before the next element
+	var install *ssa.MapUpdate
+	for _, m := range eng.MapOps(init) {
+		if n, isAct := activeMapOf(m.Map); isAct && n == "m" && m.Kind == "update" && !eng.IsNilConst(eng.Origin(m.Val)) {
+			install = m.In.(*ssa.MapUpdate)
+		}
+	}
+	okInst := false
+	if install != nil && rl.ElemOf(install.Key) {
+		if fields, mapv, isLit := eng.LiteralThroughHelper(install.Value); isLit {
+			if call, idx := eng.TupleCall(mapv(fields["Secret"])); call == fetch && idx == 0 {
+				okInst = true
+			}
+		}
+	}
+	hit2, path2 := eng.Search(init, fetch, eng.AssumeErr(ferr, true), func(x ssa.Instruction) bool { return install != nil && x == ssa.Instruction(install) }, func(x ssa.Instruction) bool {
+		return x.Block() == rl.Header || eng.IsReturn(x)
+	})
+	c.Check(okInst && hit2 == nil, "R-C10-5", init, fetch.Pos(), eng.CallStr(&fetch.Call)+" [install]", "on success a fresh entry holding the fetched value is installed under the same name before moving on", func() string {
+		if hit2 != nil {
+			return "next element reached without install: " + p.PathStr(path2)
+		}
+		return "no matching install"
+	}())
+	// a failed fetch that does not return is recorded in the list of failures
+	isFailAppend := func(x ssa.Instruction) bool {
+		for _, a := range failAppends {
+			if a == x {
+				return true
+			}
+		}
+		return false
+	}
+	hit3, path3 := eng.Search(init, fetch, eng.AssumeErr(ferr, false), isFailAppend, func(x ssa.Instruction) bool { return x.Block() == rl.Header })
+	c.Check(hit3 == nil && len(failAppends) > 0, "R-C10-5", init, fetch.Pos(), "failed "+eng.CallStr(&fetch.Call), "a failed fetch that does not end the construction is recorded for the next round", func() string {
+		if hit3 != nil {
+			return "next element reached without recording it: " + p.PathStr(path3)
+		}
+		return "no append of the failed name found"
+	}())
+	// success only after a full pass that recorded no failure
+	for _, r := range eng.Returns(init) {
+		rv := eng.RetVals(r)
+		if !eng.IsNilConst(eng.Origin(rv[errResultIndex(init)])) {
+			continue
+		}
+		okk := false
+		for _, cond := range eng.FactsAt(r) {
+			op, x, y, isCmp := cond.Cmp()
+			if !isCmp || op != token.EQL {
+				continue
+			}
+			k, isK := eng.ConstInt(y)
+			args, isLen := eng.BuiltinCall(instrOf(eng.Origin(x)), "len")
+			if !isK || k != 0 || !isLen {
+				continue
+			}
+			leaves, _ := eng.PhiLeaves(eng.Origin(args[0]))
+			for _, lf := range leaves {
+				if in := instrOf(eng.Origin(lf.Val)); in != nil && isFailAppend(in) {
+					okk = true
+				}
+			}
+		}
+		c.Check(okk && rl.Done.Dominates(r.Block()), "R-C10-5", init, r.Pos(), eng.InstrStr(r), "success is reported only after a full pass over the work list that recorded no failure", "holding: "+eng.FactsString(r))
+	}
+}
+
+func isFailAppendOf(list []ssa.Instruction, in ssa.Instruction) bool {
+	for _, a := range list {
+		if a == in {
+			return true
+		}
+	}
+	return false
 }
